@@ -15,7 +15,7 @@ CONSTANTS
   ByzMax = TRUE
   MaxNodes = 6
   MaxVotes = 5
-  Monotone = FALSE
+  Monotone = TRUE
   RootVotes = FALSE
   Variant = "asis"
 INVARIANT ExportSched
